@@ -51,7 +51,7 @@ def run(chk):
     W.compare_trees(chk, "C02.W2", "writePotentials('DL_POLY')", I2, W.out_tree(fp), expect, opts)
 
     # R1: the raise
-    site = P.func("atsim.potentials._dlpoly_writeTABLE", "_writePotential").site()
+    site = P.func("atsim.potentials._dlpoly_writeTABLE", "writePotentials").site()
     hits = []
     for conds, exc, node in I.raises:
         if len(conds) >= 1:
